@@ -310,7 +310,7 @@ LABELS = ["a", "b", "c", "d", "e"]
 
 @st.composite
 def hyp_cases(draw, tier):
-    t0 = draw(gen.forest_specs(max_nodes=14, max_depth=4, max_width=5, min_nodes=2, alphabet=LABELS))
+    t0 = draw(gen.forest_specs(max_nodes=14, max_depth=4, max_width=5, min_nodes=0, alphabet=LABELS))
     case = {"t0": t0, "ordered": draw(st.booleans()), "reduce": draw(st.booleans())}
     mode = draw(st.sampled_from(["edits", "edits", "edits", "independent", "identical"]))
     if mode == "independent":
